@@ -1,6 +1,11 @@
 # Human-written level texts per claimed property (used by tools/gen_manifest.py).
 HOOK_COMMITS = []
 META = {
+    "C01": {
+        "text": "Bounded model checking of the whole replication pipeline on the real code: two writer stores and a fresh replica run the real AddOperation, Sync, replicator, ipfs-log fetcher, Join and index code inside the interpreter; the history shape is enumerated, keys/values are symbolic, and the solver shows that all replicas holding the same entries list them in the same order and expose the same view, equal to the replay of the log.",
+        "design_ref": "DESIGN.md §2 C01",
+        "note": "Trusted: gosym (incl. its cooperative thread model with run-to-block scheduling), z3, block-store/bus/cache stubs, idealised JSON, perfect hashing/signatures. Bounds: 2 writers + 1 reader, STEPS<=3 quick / 4-5 thorough.",
+    },
     "C15": {
         "text": "Bounded model checking of the real Load path (cache heads -> ipfs-log fetcher -> Join with size trimming -> index) with the limit a full 64-bit symbolic integer: the solver partitions the limit's range at every comparison in the real code and shows, per class, no panic, no error and exactly min(n,total) most recent entries in log order.",
         "design_ref": "DESIGN.md §2 C15",
